@@ -956,3 +956,63 @@ Proof.
   - eapply begin_block_pools_ready; try eassumption. intros ? ? ? [].
   - injection H as <- <-. split; [exact HS|]. split; [exact HM|]. intros ? ? ? [].
 Qed.
+
+(* ---------- C01 for the margin begin blocker as a whole ---------- *)
+(* what the module account holds beyond what the pools record: natively over all pools, and per pool in its own token *)
+Definition gapN (s : mstate) : Z := bal (ms_bank s) CLP_MODULE ROWAN - sumf fnat (ms_pools s).
+Definition gapE (s : mstate) (a : Z) : Z :=
+  bal (ms_bank s) CLP_MODULE a - match get a (ms_pools s) with Some p => q_eb p + q_ec p | None => 0 end.
+
+Theorem begin_block_pool_gap s a pool new_rate s' closed :
+  SumInv s -> MReady s -> epoch_position s = 0 -> get a (ms_pools s) = Some pool ->
+  begin_block_pool s a pool new_rate = Ok (s', closed) ->
+  gapN s' = gapN s /\ (forall a', a' <> ROWAN -> gapE s' a' = gapE s a').
+Proof.
+  intros HS HM Hep Hg H.
+  pose proof (mready_bbready s a pool HS HM Hep Hg) as HB.
+  destruct HM as (Hw & Hn & Hsh & Hpct & Hfm & Hwp & Hpools & Hsum).
+  destruct (Hpools _ _ Hg) as (Ha & Hnb & Heb & Hbe).
+  unfold begin_block_pool in H. destruct (negb (mem a (mp_pools (ms_params s)))).
+  - injection H as <- _. unfold gapN, gapE. cbn -[sumf get Store.set fnat]. split.
+    + rewrite sumf_set, Hg. cbn [fopt]. unfold fnat. cbn. lia.
+    + intros a' Hr. destruct (Z.eq_dec a' a) as [->|Hne]; [rewrite get_set_same, Hg; cbn; lia|rewrite get_set_other by exact Hne; reflexivity].
+  - destruct ((q_nb (pool <| q_bin := 0 |> <| q_bie := 0 |>) =? 0) || (q_eb (pool <| q_bin := 0 |> <| q_bie := 0 |>) =? 0)); [injection H as <- _; split; [reflexivity|intros; reflexivity]|].
+    destruct new_rate as [[r rn] rd].
+    match type of H with context [fold_left ?f ?l ?i] => destruct (fold_left f l i) as [[s2 p2] cl] eqn:EF end. injection H as <- _.
+    pose proof (inv2_start s a pool (r, rn, rd) HS Hg Ha HB) as HI.
+    change (fold_left _ _ _) with (fold_left (bb_step a) (bb_list (bb_s1 s a pool (r, rn, rd)) a) (bb_s1 s a pool (r, rn, rd), bb_p1 pool (r, rn, rd), [])) in EF.
+    destruct (bb_loop_full a _ _ _ _ _ _ _ EF HI) as (_ & (Q1 & Q2 & Q3 & Q4 & _ & _)).
+    assert (Epools : set a p2 (ms_pools s2) = set a p2 (ms_pools s)).
+    { destruct Q1 as [Q1|(q & Q1)]; rewrite Q1; unfold bb_s1; cbn -[Store.set]; rewrite ?set_set; reflexivity. }
+    unfold gapN, gapE. cbn -[sumf get Store.set fnat]. rewrite Epools.
+    cbn [bb_s1 bb_p1 ms_bank q_nb q_nc q_eb q_ec] in Q2, Q3. cbn in Q2, Q3. split.
+    + rewrite sumf_set, Hg. cbn [fopt]. unfold fnat. lia.
+    + intros a' Hr. destruct (Z.eq_dec a' a) as [->|Hne].
+      * rewrite get_set_same, Hg. lia.
+      * rewrite get_set_other by exact Hne. rewrite (Q4 a' Hr Hne). reflexivity.
+Qed.
+
+Lemma begin_block_pools_gap : forall assets s rates closed0 s' closed,
+  SumInv s -> MReady s -> epoch_position s = 0 -> begin_block_pools s assets rates closed0 = Ok (s', closed) ->
+  gapN s' = gapN s /\ (forall a', a' <> ROWAN -> gapE s' a' = gapE s a').
+Proof.
+  induction assets as [|a rest IH]; intros s rates closed0 s' closed HS HM Hep H; cbn [begin_block_pools] in H.
+  - injection H as <- _. split; [reflexivity|intros; reflexivity].
+  - destruct (get a (ms_pools s)) as [p|] eqn:Hg; [|eapply IH; eassumption].
+    destruct (begin_block_pool s a p (hd (0, 0, 1) rates)) as [[s1 cl1]| |] eqn:E; cbn [bind] in H; try discriminate.
+    destruct (begin_block_pool_ready s a p _ s1 cl1 HS HM Hep Hg E) as (HS1 & HM1 & Hep1 & _).
+    destruct (begin_block_pool_gap s a p _ s1 cl1 HS HM Hep Hg E) as (G1 & G2).
+    cbn [fst snd] in H. destruct (IH s1 _ _ _ _ HS1 HM1 Hep1 H) as (G3 & G4).
+    split; [congruence|]. intros a' Hr. rewrite (G4 a' Hr). apply G2. exact Hr.
+Qed.
+
+(* C01: the whole margin begin blocker (interest payments to the fund, liquidations with their payouts, every pool) leaves
+   what the module account holds beyond the pools' records unchanged, natively and in every pool's token *)
+Theorem begin_block_margin_gap s rates s' closed :
+  SumInv s -> MReady s -> begin_block_margin s rates = Ok (s', closed) ->
+  gapN s' = gapN s /\ (forall a', a' <> ROWAN -> gapE s' a' = gapE s a').
+Proof.
+  intros HS HM H. unfold begin_block_margin in H. destruct (Z.eqb_spec (epoch_position s) 0) as [Hep|_].
+  - eapply begin_block_pools_gap; eassumption.
+  - injection H as <- _. split; [reflexivity|intros; reflexivity].
+Qed.
